@@ -1,0 +1,66 @@
+//go:build verif
+
+package evaluation
+
+import (
+	"github.com/launchdarkly/go-sdk-common/v3/ldattr"
+	"github.com/launchdarkly/go-sdk-common/v3/ldcontext"
+	"github.com/launchdarkly/go-sdk-common/v3/ldvalue"
+	"github.com/launchdarkly/go-server-sdk-evaluation/v3/internal"
+	"github.com/launchdarkly/go-server-sdk-evaluation/v3/ldmodel"
+)
+
+// This file is compiled only with the "verif" build tag. It re-exports a few unexported functions,
+// read-only, for the external verification harness. It adds no behaviour to the library.
+
+// VerifComputeBucketValue calls computeBucketValue on a scope built from the arguments.
+func VerifComputeBucketValue(
+	enableSecondaryKey bool,
+	context ldcontext.Context,
+	isExperiment bool,
+	seed ldvalue.OptionalInt,
+	contextKind ldcontext.Kind,
+	key string,
+	attr ldattr.Ref,
+	salt string,
+) (float32, int, error) {
+	es := evaluationScope{owner: &evaluator{enableSecondaryKey: enableSecondaryKey}, context: context}
+	v, reason, err := es.computeBucketValue(isExperiment, seed, contextKind, key, attr, salt)
+	return v, int(reason), err
+}
+
+// VerifBufOp is one append operation for VerifLocalBufferScript.
+type VerifBufOp struct {
+	Kind byte // 'b' = AppendByte, 's' = AppendString, 'i' = AppendInt, 'a' = Append
+	B    byte
+	S    string
+	I    int
+}
+
+// VerifLocalBufferScript runs a sequence of appends on a LocalBuffer with the given initial capacity.
+func VerifLocalBufferScript(initialCap int, ops []VerifBufOp) []byte {
+	buf := internal.LocalBuffer{Data: make([]byte, 0, initialCap)}
+	for _, op := range ops {
+		switch op.Kind {
+		case 'b':
+			buf.AppendByte(op.B)
+		case 's':
+			buf.AppendString(op.S)
+		case 'i':
+			buf.AppendInt(op.I)
+		case 'a':
+			buf.Append([]byte(op.S))
+		}
+	}
+	return buf.Data
+}
+
+// VerifParseHexUint64 re-exports internal.ParseHexUint64.
+func VerifParseHexUint64(data []byte) (uint64, bool) {
+	return internal.ParseHexUint64(data)
+}
+
+// VerifClauseMatchNoSegments re-exports clauseMatchesContextNoSegments.
+func VerifClauseMatchNoSegments(c *ldmodel.Clause, context *ldcontext.Context) (bool, error) {
+	return clauseMatchesContextNoSegments(c, context)
+}
